@@ -16,6 +16,7 @@ T: a run that differs is not judged by the harness: its recorded trace is decide
 """
 import json
 import os
+import shutil
 
 import vlib
 
@@ -26,10 +27,9 @@ ACTIONS = ["Begin", "MkDir", "List", "OpenEx", "SyncDirReuse", "FileLen", "Decid
            "SyncDir", "WriteSep", "WriteEv", "PFlush", "PSync", "Flush", "Sync", "End"]
 
 
-def verdicts(ctx, trace_path, label):
+def verdicts(ctx, trace_path, label, module="MCFileSetTrace", cfg="FileSetTrace.cfg"):
     """Run the level-A monitor over a concatenation of scenarios; {sid: set(bad)}."""
-    r = ctx.validate_trace("MCFileSetTrace", "FileSetTrace.cfg", trace_path, label=label,
-                           timeout=1500, xmx="4g")
+    r = ctx.validate_trace(module, cfg, trace_path, label=label, timeout=1500, xmx="4g")
     if r.violated:
         raise vlib.ToolError("level-A monitor did not accept the recorded trace %s (%s):\n%s" % (
             trace_path, r.violated, vlib.tail_of(r.out_path, 15)))
@@ -70,6 +70,8 @@ def shape(case):
             faults = [c[0] + ":" + c[3] for c in h["calls"] if c[3] != "ok"]
             ops.append("batch(%d%s%s)->%s" % (len(h["evs"]), ",ph" if h.get("ph") else "",
                                                "," + "+".join(faults) if faults else "", h["res"]))
+        elif h["op"] == "fmtfail":
+            ops.append("fmtfail(%s)" % h["kind"])
         else:
             ops.append(h["op"])
     return "maxFiles=%s maxSize=%s reuse=%s %s" % (case.get("maxFiles"), case.get("maxSize"),
@@ -115,7 +117,10 @@ EMITTER_CLAUSES = {
     # C09 carried through: emit never blocks, the queue is bounded, overflow drops the oldest, counted
     "bounded": {"EmitNeverBlocks", "QueueBounded", "DropsOldestCounted"},
     # C10 at the level of the whole emitter: what reaches the files are whole events
-    "records": C10,
+    # (incl. the front half of emit: a failing writer discards the event as a whole)
+    "records": C10 | {"FormatFailDiscarded", "FormatFailCounted"},
+    # C11 at the level of the whole emitter (the size accounting of the batches emit hands over)
+    "roll": C11,
 }
 
 
@@ -145,7 +150,7 @@ def file_emitter_phase(ctx, prop, clauses=("records",), only=None, seed=None):
     elif ctx.quick:
         pick = sorted(random.Random(seed).sample(range(len(scen)), 100))
     else:
-        pick = list(range(len(scen)))
+        pick = sorted(random.Random(seed).sample(range(len(scen)), min(len(scen), 4000)))
     nproc = 1 if only is not None else (4 if ctx.quick else 8)
     bindir = ctx.cargo_build("vh_file", bins=["c07_file_inj"])
     exe = os.path.join(bindir, "c07_file_inj")
@@ -196,7 +201,8 @@ def file_emitter_phase(ctx, prop, clauses=("records",), only=None, seed=None):
            "with_emits_during_stall": sum(1 for v in vs.values() if v["stallEmits"] > 0),
            "with_truncation": sum(1 for v in vs.values() if v["ntrunc"] > 0),
            "with_permanent_failure": sum(1 for v in vs.values() if v["nfailed"] > 0),
-           "events_reported_written": sum(v["nacked"] for v in vs.values())}
+           "events_reported_written": sum(v["nacked"] for v in vs.values()),
+           "with_failing_writer": sum(1 for v in vs.values() if v["nfmt"] > 0)}
     ctx.cov["file_emitter_e2e"] = cov
     ndrift = 0
     nhit = 0
@@ -221,7 +227,8 @@ def file_emitter_phase(ctx, prop, clauses=("records",), only=None, seed=None):
     # well make the scenarios degenerate, and then the violations above are the verdict)
     if only is None and not nhit and not (
             cov["with_emits_during_stall"] and cov["with_truncation"] and
-            cov["with_permanent_failure"] and cov["events_reported_written"]):
+            cov["with_permanent_failure"] and cov["events_reported_written"] and
+            cov["with_failing_writer"]):
         raise vlib.ToolError("vacuity: end-to-end scenarios without stall/truncation/failure: %s" % cov)
     if ndrift:
         vlib.log("MODEL-DRIFT: %d end-to-end scenarios in which the queue of FileEmitterTrace.tla "
@@ -235,11 +242,92 @@ def file_emitter_phase(ctx, prop, clauses=("records",), only=None, seed=None):
     ]
 
 
+PROD_OPS = ["mkdir", "list", "openex", "syncdir", "len", "remove", "opennew", "write-sep", "write",
+            "flush", "sync", "restart", "fmtfail-partial", "fmtfail-empty"]
+
+
+def production_phase(ctx, prop, mine, only=None):
+    """The production side of every trait the crate has a test double for (StdFilesystem,
+    StdFile, SystemClock, RandRng) and the public entry points (set, set_with_writer,
+    FileSetBuilder::writer; custom and default JSON writer, writers that fail midway):
+    the fault-free cases TLC generates from spec/FileWorker.tla (FileWorker_prod_*.cfg: one
+    event per batch, restarts and failing writers at every point) are run on the REAL FileSet
+    over the REAL filesystem / clock / rng; the directory read back after every flush gives
+    the level-A events, and TLC decides every run against spec/FileSetTrace.tla."""
+    cfg = "FileWorker_prod_quick.cfg" if ctx.quick else "FileWorker_prod_thorough.cfg"
+    label = cfg.replace(".cfg", "")
+    cases = os.path.join(ctx.out, "cases-%s.ndjson" % label)
+    if only is not None:
+        with open(cases, "w") as f:
+            f.write(json.dumps(only) + "\n")
+    else:
+        r = ctx.tlc("MCFileWorker", cfg, workers=4, timeout=1500, xmx="4g", label=label)
+        if r.violated:
+            ctx.spec_violation(r, "%s FileWorker.tla (%s): clause %s fails at design level" % (
+                prop, cfg, r.violated))
+            return
+        ctx.require_actions(r, ["FmtFail", "Reopen", "OpenEx", "FileLen", "Remove", "OpenNew", "WriteSep"], cfg)
+        lines = sorted(vlib.iter_printed(r.out_path, "REPLAY"))
+        if not lines:
+            raise vlib.ToolError("TLC printed no REPLAY lines for %s" % cfg)
+        with open(cases, "w") as f:
+            f.write("\n".join(lines) + "\n")
+    bindir = ctx.cargo_build("vh_file", bins=["c10_file_prod"])
+    tb = os.path.join(ctx.out, "prod-bytes.ndjson")
+    tj = os.path.join(ctx.out, "prod-json.ndjson")
+    rp = os.path.join(ctx.out, "prod-report.json")
+    scratch = os.path.join(ctx.out, "prod-scratch")
+    ctx.run_harness(os.path.join(bindir, "c10_file_prod"), [cases, tb, tj, rp, scratch, 8], timeout=2400)
+    shutil.rmtree(scratch, ignore_errors=True)
+    rep = json.load(open(rp))
+    if rep["flush_failed"]:
+        raise vlib.ToolError("production run: %d fault-free flushes did not complete" % rep["flush_failed"])
+    vs = verdicts(ctx, tb, "tv-prod-bytes")
+    vs.update(verdicts(ctx, tj, "tv-prod-json", module="MCFileSetTraceJson", cfg="FileSetTraceJson.cfg"))
+    if len(vs) != rep["runs"]:
+        raise vlib.ToolError("monitor printed %d verdicts for %d production runs" % (len(vs), rep["runs"]))
+    ctx.cov["traces_validated_against_impl"] += rep["runs"]
+    ctx.cov["production_runs"] = {"runs": rep["runs"], "entry_points": rep["entries"], "ops": rep["ops"],
+                                  "skipped_period_change": rep["skipped_period_change"]}
+    idx = {x["sid"]: x for x in rep["index"]}
+    case_lines = open(cases).read().splitlines()
+    nhit = 0
+    for sid, bad in sorted(vs.items()):
+        hit = sorted(bad & mine)
+        if hit:
+            nhit += 1
+            x = idx[sid]
+            case = json.loads(case_lines[x["line"] - 1])
+            what = "%s %s broken by the real FileSet on the real filesystem [%s]; %s" % (
+                prop, ",".join(hit), x["entry"], shape(case))
+            ctx.violation(what, {"prod": {"entry": x["entry"]}, "case": case, "clauses": hit},
+                          signature="%s production %s entry=%s %s" % (prop, ",".join(hit), x["entry"], shape(case)))
+            by_clause = ctx.cov.setdefault("violations_by_clause", {})
+            for h in hit:
+                by_clause[h] = by_clause.get(h, 0) + 1
+    if only is None and not nhit:
+        missing = [o for o in PROD_OPS if not rep["ops"].get(o)]
+        if missing:
+            raise vlib.ToolError("vacuity: the production run never needed %s" % missing)
+    if rep["prediction_mismatch"]:
+        vlib.log("MODEL-DRIFT: %d production runs end in a directory that differs from spec/FileWorker.tla's"
+                 % rep["prediction_mismatch"])
+        ctx.cov["drift_runs"] = ctx.cov.get("drift_runs", 0) + rep["prediction_mismatch"]
+    ctx.assumptions += [
+        "production run: the filesystem calls of StdFilesystem / StdFile are not seen; the effect of each one-event batch "
+        "is read back from the directory after a successful flush (synced-ness is not observable: every appended byte "
+        "counts as synced); names are matched against the harness's own reading of the system clock before / after the batch",
+    ]
+
+
 def run(ctx, prop, mine, cfgs, extra_runs=None):
     """cfgs: list of (cfg file, workers).  mine: the clause names of this property."""
     bindir = None
     binname = "c10_fileset" if prop == "C10" else "c11_fileset"
     rc = ctx.replay_case()
+    if rc is not None and "prod" in rc:
+        production_phase(ctx, prop, mine, only=rc["case"])
+        return
     if rc is not None and "inj" in rc:
         file_emitter_phase(ctx, prop, ("records",), only=rc["inj"]["sid"], seed=rc["inj"]["seed"])
         return
@@ -351,8 +439,10 @@ def run(ctx, prop, mine, cfgs, extra_runs=None):
                 ctx.cov["drift_runs"] = ctx.cov.get("drift_runs", 0) + ndrift
     if rc is None and bindir is not None:
         random_histories(ctx, prop, mine, os.path.join(bindir, binname))
-    if rc is None and prop == "C10":
-        file_emitter_phase(ctx, prop, ("records",))
+    if rc is None:
+        production_phase(ctx, prop, mine)
+    if rc is None:
+        file_emitter_phase(ctx, prop, ("records",) if prop == "C10" else ("roll",))
     ctx.cov["cases"] = total_cases
     missing = [a for a in ACTIONS if taken and not taken.get(a)]
     if missing:
